@@ -4,8 +4,10 @@ import (
 	"crypto/x509"
 	"encoding/hex"
 	"encoding/json"
+	"encoding/pem"
 	"errors"
 	"fmt"
+	"regexp"
 	"sort"
 	"strings"
 	"testing"
@@ -429,6 +431,105 @@ func TestC10(t *testing.T) {
 			}
 		}
 		gen.Exhaustive("size / magnitude variants of every JSON node of correctly re-signed TCB Info and QE Identity documents", true)
+	})
+
+	// (2b) the dates of correctly signed documents: every pairing of issueDate / nextUpdate spellings, including equal
+	// instants (same or different zone spelling), sub-microsecond distances, reversed order, absent and non-date values.
+	gen.Direct(t, "signed-collateral-dates", func(t *testing.T) {
+		w := gen.NewWorld(base.PKI, gen.NewStream(gen.Seed()+77, "c10dates")).Build()
+		spell := []string{`"2040-01-01T00:00:00Z"`, `"2040-01-01T02:00:00+02:00"`, `"2039-12-31T19:00:00-05:00"`, `"2040-01-01T00:00:00.000000001Z"`, `"2040-01-01T00:00:00.00000005Z"`, `"2040-01-01T00:00:01Z"`,
+			`"2039-12-31T23:59:59Z"`, `"2031-03-14T01:00:00Z"`, `"2031-03-14T02:00:00Z"`, `"0001-01-01T00:00:00Z"`, `"9999-12-31T23:59:59Z"`, `"2262-04-11T23:47:16.854775807Z"`, `"2262-04-11T23:47:16.854775808Z"`,
+			`"0000-00-00T00:00:00Z"`, `"2040-01-01"`, `""`, `null`, `0`, `2040`, `[]`, `{}`, `"not a date"`, ``}
+		dateRe := func(key string) *regexp.Regexp { return regexp.MustCompile(`"` + key + `":"[^"]*",`) }
+		i := 0
+		for _, k := range []c03Kind{kindTcb, kindQe} {
+			doc0 := k.render(w)
+			for _, is := range spell {
+				for _, nu := range spell {
+					i++
+					if !gen.ShardOwns(i) {
+						continue
+					}
+					repl := func(doc []byte, key, val string) []byte {
+						if val == "" {
+							return dateRe(key).ReplaceAll(doc, nil) // member absent
+						}
+						return dateRe(key).ReplaceAll(doc, []byte(`"`+key+`":`+val+`,`))
+					}
+					doc := repl(repl(doc0, "issueDate", is), "nextUpdate", nu)
+					saved := w.Resp[k.url(w)]
+					w.Resp[k.url(w)] = gen.Response{Header: saved.Header, Body: gen.SignedBody(k.member, doc, k.signer(w).Key)}
+					for _, l := range []gen.Level{gen.LvlColl, gen.LvlCRL} {
+						o := w.Options(l, w.NewGetter(), nil)
+						c10Call(t, "verify.RawTdxQuote+signed-"+k.name+"-dates", w.CaseFile(l, nil, nil, nil, "nopanic"), func() error { return verify.RawTdxQuote(w.Raw, o) })
+						o2 := w.Options(l, w.NewGetter(), nil)
+						c10Call(t, "verify.SupportedTcbLevelsFromCollateral+signed-"+k.name+"-dates", w.CaseFile(l, nil, nil, nil, "nopanic"), func() error {
+							m, err := abi.QuoteToProto(w.Raw)
+							if err != nil {
+								return err
+							}
+							_, _, err = verify.SupportedTcbLevelsFromCollateral(m, o2)
+							return err
+						})
+					}
+					w.Resp[k.url(w)] = saved
+					gen.NonTrivial("dates", k.name, is, nu)
+					gen.Class("signed-collateral-dates")
+					if i%97 == 0 {
+						gen.Sample("signed-collateral-dates", map[string]any{"document": k.name, "issueDate": is, "nextUpdate": nu})
+					}
+				}
+			}
+		}
+		gen.Exhaustive("23 x 23 spellings of issueDate / nextUpdate in correctly re-signed TCB Info and QE Identity documents", true)
+	})
+
+	// (2c) what a CRL endpoint may answer: DER, PEM in several framings (well-formed, damaged, empty, foreign type), text.
+	gen.Direct(t, "crl-body-shapes", func(t *testing.T) {
+		w := gen.NewWorld(base.PKI, gen.NewStream(gen.Seed()+78, "c10crl")).Build()
+		i := 0
+		for _, u := range []string{gen.PckCrlURL("platform"), gen.RootCrlURL} {
+			der := w.Resp[u].Body
+			pemOK := string(pem.EncodeToMemory(&pem.Block{Type: "X509 CRL", Bytes: der}))
+			lines := strings.Split(strings.TrimSpace(pemOK), "\n")
+			inner := strings.Join(lines[1:len(lines)-1], "\n")
+			begin, end := "-----BEGIN X509 CRL-----", "-----END X509 CRL-----"
+			shapes := map[string]string{
+				"pem": pemOK, "pem-leading-blanks": "  \n\t" + pemOK, "pem-trailing-text": pemOK + "trailing\n", "pem-crlf": strings.ReplaceAll(pemOK, "\n", "\r\n"),
+				"pem-markers-only": begin + "\n" + end + "\n", "pem-markers-one-line": begin + end, "pem-no-newline-at-end": strings.TrimSpace(pemOK),
+				"pem-garbage-inside": begin + "\n!!!! this is not base64 !!!!\n" + end + "\n", "pem-html-inside": begin + "\n<html><body>502 Bad Gateway</body></html>\n" + end + "\n",
+				"pem-one-char-damaged": begin + "\n" + strings.Replace(inner, inner[10:11], "*", 1) + "\n" + end + "\n", "pem-one-char-missing": begin + "\n" + inner[:20] + inner[21:] + "\n" + end + "\n",
+				"pem-no-end": begin + "\n" + inner + "\n", "pem-no-begin": inner + "\n" + end + "\n", "pem-end-before-begin": end + "\n" + inner + "\n" + begin + "\n",
+				"pem-with-headers": begin + "\nProc-Type: 4,ENCRYPTED\n\n" + inner + "\n" + end + "\n", "pem-other-type": strings.ReplaceAll(pemOK, "X509 CRL", "CERTIFICATE"),
+				"pem-twice": pemOK + pemOK, "pem-of-garbage": string(pem.EncodeToMemory(&pem.Block{Type: "X509 CRL", Bytes: []byte{0x30, 0x82, 0xff, 0xff, 1, 2, 3}})), "pem-of-empty": string(pem.EncodeToMemory(&pem.Block{Type: "X509 CRL", Bytes: nil})),
+				"html": "<html><body>404</body></html>", "der-with-begin-prefix": begin + "\n" + string(der), "begin-only": begin, "dashes": "-----", "blank": " \n", "empty": "",
+				"base64-der": inner, "der-twice": string(der) + string(der), "der-trailing-byte": string(der) + "\x00",
+			}
+			names := make([]string, 0, len(shapes))
+			for n := range shapes {
+				names = append(names, n)
+			}
+			sort.Strings(names)
+			for _, n := range names {
+				i++
+				if !gen.ShardOwns(i) {
+					continue
+				}
+				saved := w.Resp[u]
+				r := saved
+				r.Body = []byte(shapes[n])
+				w.Resp[u] = r
+				o := w.Options(gen.LvlCRL, w.NewGetter(), nil)
+				c10Call(t, "verify.RawTdxQuote+crl-body:"+n, w.CaseFile(gen.LvlCRL, nil, nil, nil, "nopanic"), func() error { return verify.RawTdxQuote(w.Raw, o) })
+				w.Resp[u] = saved
+				gen.NonTrivial("crl-shape", u, n)
+				gen.Class("crl-body-shape")
+				if i%7 == 0 {
+					gen.Sample("crl-body-shape", n)
+				}
+			}
+		}
+		gen.Exhaustive("30 framings of the PCK CRL and Root CA CRL response bodies", true)
 	})
 
 	// (3) random: mutated raw quotes, random message edits, arbitrary collateral, arbitrary SGX extension DER.
